@@ -20,6 +20,7 @@ import (
 	"strconv"
 	"strings"
 	"sync"
+	"sync/atomic"
 	"syscall"
 	"time"
 
@@ -81,6 +82,10 @@ type Spec struct {
 	Models      []string  `json:"models"`
 	Bounds      string    `json:"bounds"`
 	Outside     []string  `json:"outside"`
+	LevelText   string    `json:"level_text"`
+	LevelNote   string    `json:"level_note"`
+	Technique   string    `json:"technique"`
+	DesignRef   string    `json:"design_ref"`
 }
 
 type KnownFinding struct {
@@ -532,11 +537,13 @@ func exploreRun(spec *Spec, run *RunSpec, ts *TierSpec, nworkers, seed int, know
 	active, total := 0, 0
 	stop := ""
 	engines := make([]*Engine, nworkers)
+	var violCount int64
 	var wg sync.WaitGroup
 	for w := 0; w < nworkers; w++ {
 		e := newEngine(ld.prog, run, ts, knownIDs, seed+w)
 		e.initAllow[harness.Pkg.Pkg.Path()] = true
 		e.witnessQuota = (wq + nworkers - 1) / nworkers
+		e.violCounter = &violCount
 		engines[w] = e
 		wg.Add(1)
 		go func(e *Engine) {
@@ -557,6 +564,8 @@ func exploreRun(spec *Spec, run *RunSpec, ts *TierSpec, nworkers, seed int, know
 						stop = fmt.Sprintf("time limit %ds", ts.TimeoutS)
 					} else if total >= maxPaths {
 						stop = fmt.Sprintf("path limit %d", maxPaths)
+					} else if atomic.LoadInt64(&violCount) >= 64 {
+						stop = "stopped early: 64 counterexamples outside the known classes already collected"
 					}
 				}
 				if len(work) == 0 || stop != "" {
@@ -718,6 +727,7 @@ type replayFile struct {
 	Values   map[string]string `json:"values"`
 	Params   map[string]int    `json:"params"`
 	Schedule []int             `json:"decisions,omitempty"`
+	Choices  []int             `json:"schedule_choices,omitempty"`
 	Obs      []string          `json:"obs,omitempty"`
 	Covers   []string          `json:"covers,omitempty"`
 	Threads  int               `json:"threads,omitempty"`
@@ -728,7 +738,7 @@ type replayFile struct {
 
 func writeReplayFile(path string, spec *Spec, run *RunSpec, ts *TierSpec, f *Finding) {
 	rf := replayFile{Property: spec.Property, Run: run.Name, Pkg: run.Pkg, Entry: run.Entry, Kind: f.Kind, Label: f.Label, Class: f.Class,
-		Values: f.Values, Params: ts.Params, Schedule: f.Decisions, Threads: f.Threads, Note: f.Msg, Tier: ts, Scaled: run.Scaled}
+		Values: f.Values, Params: ts.Params, Schedule: f.Decisions, Choices: f.Choices, Threads: f.Threads, Note: f.Msg, Tier: ts, Scaled: run.Scaled}
 	if rf.Values == nil {
 		rf.Values = map[string]string{}
 	}
@@ -881,7 +891,18 @@ func pinnedReplay(spec *Spec, run *RunSpec, ts *TierSpec, f *Finding, workDir st
 	defer e.closeSolvers()
 	e.initAllow[harness.Pkg.Pkg.Path()] = true
 	e.pinned = f.Values
-	e.runPath(harness, f.Decisions)
+	if e.pinned == nil {
+		e.pinned = map[string]string{}
+	}
+	e.pinMode = true
+	e.pinChoices = f.Choices
+	e.runPath(harness, nil)
+	if os.Getenv("GOSYM_DEBUG") != "" {
+		fmt.Fprintf(os.Stderr, "pinned replay: ends=%v findings=%d\n", e.ends, len(e.findings))
+		for _, g := range e.findings {
+			fmt.Fprintf(os.Stderr, "  %s %q class=%q\n", g.Kind, g.Label, g.Class)
+		}
+	}
 	for _, g := range e.findings {
 		if g.Kind == f.Kind && g.Label == f.Label {
 			return true, fmt.Sprintf("by concrete re-execution of the real SSA under the recorded schedule (%d decisions, %d threads)", len(f.Decisions), f.Threads)
@@ -964,7 +985,7 @@ func cmdReplay(args []string) int {
 	if ts == nil {
 		ts = &TierSpec{Params: rf.Params}
 	}
-	f := &Finding{Kind: rf.Kind, Label: rf.Label, Class: rf.Class, Values: rf.Values, Decisions: rf.Schedule, Threads: rf.Threads}
+	f := &Finding{Kind: rf.Kind, Label: rf.Label, Class: rf.Class, Values: rf.Values, Decisions: rf.Schedule, Choices: rf.Choices, Threads: rf.Threads}
 	// package name from a quick load
 	ov, _, _ := harnessOverlay(run, workDir)
 	ld, err := loadProgram(run.Pkg, ov)
